@@ -94,6 +94,7 @@ class _Normalizer:
                 self._each_function(m, self._fuse_in_function)
                 if self.stats['inlined_calls'] + self.stats.get('fused_generators', 0) == before:
                     break
+            self._each_function(m, self._generator_form)
             self._each_function(m, self._augment_function)
             self._each_function(m, self._desugar_function)
             self._each_function(m, self._fold_function)
@@ -171,6 +172,56 @@ class _Normalizer:
             T().visit(fnode)
         finally:
             fnode.args = saved
+
+    # ------------------------------------------------------------------ 1d. one spelling for "this function produces these items"
+    def _generator_form(self, fnode, cls, local):
+        """``return (E for T in S if C)`` and ``def g(..): for T in S: yield E`` + ``return g(..)`` both become a loop with
+        ``yield`` in the function itself.  (When the items are produced -- at the call or at the first ``next`` -- differs;
+        which items, from what, in which order does not, and that is all the rules look at.)"""
+        body = _body(fnode)
+        if any(isinstance(n, (ast.Yield, ast.YieldFrom)) for st in body if not isinstance(st, (ast.FunctionDef, ast.ClassDef))
+               for n in ast.walk(st)):
+            return
+        rets = [n for st in body if not isinstance(st, (ast.FunctionDef, ast.ClassDef)) for n in ast.walk(st) if isinstance(n, ast.Return)]
+        if len(rets) != 1 or not body or rets[0] is not body[-1] or rets[0].value is None:
+            return
+        ret = rets[0]
+        new_tail = None
+        v = ret.value
+        if isinstance(v, ast.GeneratorExp):
+            inner: List[ast.stmt] = [ast.Expr(value=ast.Yield(value=v.elt))]
+            for g in reversed(v.generators):
+                if g.is_async:
+                    return
+                for cond in reversed(g.ifs):
+                    inner = [ast.If(test=cond, body=inner, orelse=[])]
+                inner = [ast.For(target=g.target, iter=g.iter, body=inner, orelse=[])]
+            new_tail = inner
+        elif isinstance(v, ast.Call) and isinstance(v.func, ast.Name):
+            nested = [st for st in body if isinstance(st, ast.FunctionDef) and st.name == v.func.id]
+            if len(nested) == 1 and any(isinstance(n, ast.Yield) for n in ast.walk(nested[0])) \
+                    and not any(isinstance(n, (ast.Return, ast.YieldFrom)) for n in ast.walk(nested[0])) \
+                    and not v.keywords and not any(isinstance(a, ast.Starred) for a in v.args):
+                g = nested[0]
+                params = [a.arg for a in g.args.args]
+                if len(params) == len(v.args) and not g.args.vararg and not g.args.kwarg and not g.args.defaults:
+                    uses = sum(1 for n in ast.walk(fnode) if isinstance(n, ast.Name) and n.id == g.name and isinstance(n.ctx, ast.Load))
+                    if uses == 1:
+                        binds = []
+                        for p_, a_ in zip(params, v.args):
+                            # ``iter(x)`` only fixes when iteration starts
+                            if isinstance(a_, ast.Call) and isinstance(a_.func, ast.Name) and a_.func.id == 'iter' and len(a_.args) == 1:
+                                a_ = a_.args[0]
+                            binds.append(ast.Assign(targets=[ast.Name(id=p_, ctx=ast.Store())], value=a_))
+                        new_tail = binds + copy.deepcopy(_body(g))
+                        fnode.body = [st for st in fnode.body if st is not g]
+        if new_tail is None:
+            return
+        for st in new_tail:
+            ast.copy_location(st, ret)
+            ast.fix_missing_locations(st)
+        fnode.body = [st for st in fnode.body if st is not ret] + new_tail
+        self.stats['generator_forms'] = self.stats.get('generator_forms', 0) + 1
 
     # ------------------------------------------------------------------ 1b. x = x + e  ->  x += e
     def _augment_function(self, fnode, cls, local):
@@ -443,7 +494,7 @@ class _Normalizer:
                 r = Y().visit(x)
                 new_body.extend(r if isinstance(r, list) else [r])
             me.stats['fused_generators'] = me.stats.get('fused_generators', 0) + 1
-            me.inlined.append((caller_key, fi.key))
+            me.inlined.append((caller_key, fi.key, id(fnode)))
             return new_body
 
         def single_use_local_call(name: str):
@@ -534,7 +585,7 @@ class _Normalizer:
                     if not (isinstance(st, ast.If) and _evaluated_first(st.test, call)):
                         break
                 me.stats['inlined_calls'] += 1
-                me.inlined.append((caller_key, fi.key))
+                me.inlined.append((caller_key, fi.key, id(fnode)))
                 if hdr:
                     setattr(st, hdr, replace(getattr(st, hdr), call, ret))
                 else:
